@@ -113,6 +113,71 @@ def run_case(sb, rng, direction, src, dst, flags, count, dry=False):
     return rc, out.decode("utf-8", "replace"), err.decode("utf-8", "replace"), read_tree(sroot), read_tree(droot), sroot, droot
 
 
+QUOTE_ALPHA = ["\\", "\\", "'", "'", '"', "$", "`", ";", "n", "t", "x", "0", "7", "u", "c", "e", " ", "\n", "\t", "é", "a", "?", "&", "|", "(", "*"]
+
+
+def bash_ansi_c(word_body):
+    """What real bash makes of $'<word_body>' (None if bash rejects the script)."""
+    import subprocess, tempfile
+    with tempfile.NamedTemporaryFile("wb", suffix=".sh", dir="/var/tmp", delete=False) as f:
+        f.write(b"printf '%s' $'" + word_body.encode("utf-8", "surrogateescape") + b"'\n")
+        name = f.name
+    try:
+        r = subprocess.run(["bash", "--norc", "--noprofile", name], capture_output=True, timeout=20, env={"LC_ALL": "C.UTF-8", "PATH": "/usr/bin:/bin"})
+    finally:
+        os.unlink(name)
+    if r.returncode != 0 or r.stderr:
+        return None
+    return r.stdout
+
+
+def quoting_section(rng, thorough, rundir, model_run, res, count):
+    """Model `escape` / `ansiC` against real bash: (1) bash decodes the model's escaping of s back to s, for
+    hostile s; (2) the model's scanner and bash agree on arbitrary quoted words (escaped or not)."""
+    def hx(b):
+        return b.hex() if b else "-"
+    strings = ["a", "it's", "back\\slash", "end\\", "'", "\\'", "\\\\'", "a'; rm -rf $HOME #", "$(id)", "`id`", "new\nline", "tab\there",
+               "q\\n", "\\x41", "\\101", "\\u00e9", "\\cA", "é'é", "''", "\\\\", "a b", "-rf", "*?[a]"]
+    for _ in range(600 if thorough else 120):
+        strings.append("".join(rng.pick(QUOTE_ALPHA) for _ in range(rng.range(1, 10))))
+    raws = ["".join(rng.pick(QUOTE_ALPHA) for _ in range(rng.range(1, 9))) for _ in range(1500 if thorough else 250)]
+    ops = [f"escape {hx(s.encode())}" for s in strings] + [f"ansic {hx((r + chr(39)).encode())}" for r in raws]
+    path = os.path.join(rundir, "quote", "ops.txt")
+    os.makedirs(os.path.dirname(path), exist_ok=True)
+    with open(path, "w") as f:
+        f.write("\n".join(ops) + "\n")
+    model = model_run(path)
+    dis = 0
+    if len(model) != len(ops):
+        res["broken"].append("C04/corr/quote: model driver answered %d of %d quoting queries" % (len(model), len(ops)))
+        return len(ops), 1
+    for s, mo in zip(strings, model[:len(strings)]):
+        esc = b"" if mo == "-" else bytes.fromhex(mo)
+        got = bash_ansi_c(esc.decode("utf-8"))
+        count("quote/escape-roundtrip-through-real-bash")
+        if got != s.encode():
+            dis += 1
+            res["violations"].append(("quoting-roundtrip-real-bash", f"bash decodes $'{esc!r}' (the escaping of {s!r}) to {got!r}", {"string": s, "escaped_hex": mo}))
+    for r, mo in zip(raws, model[len(strings):]):
+        if mo == "NONE":
+            count("quote/scanner-outside-model-or-unterminated")
+            continue
+        d, rest = mo.split(" ")
+        if rest != "-":
+            count("quote/scanner-closed-early(not-run-in-bash)")
+            continue
+        got = bash_ansi_c(r)
+        count("quote/scanner-vs-real-bash")
+        want = b"" if d == "-" else bytes.fromhex(d)
+        if got != want:
+            dis += 1
+            if len(res.setdefault("disagreements", [])) < 10:
+                res["disagreements"].append({"query": "ansic " + repr(r), "impl": repr(got), "model": repr(want)})
+    if dis:
+        res["broken"].append(f"C04/corr/quote: model of bash ANSI-C quoting and real bash disagree on {dis} words")
+    return len(ops), dis
+
+
 def run(pid, tier, seed, rundir, model_run):
     rng = Rng(seed ^ 0xC04)
     thorough = tier == "thorough"
@@ -294,6 +359,9 @@ def run(pid, tier, seed, rundir, model_run):
             bad = [t for t in touched if t not in allowed and not t.endswith(".copia-tmp")]
             if bad:
                 res["violations"].append(("nonzero-exit-touched-outside-plan", f"the run failed (rc {im_m.group(1)}) and touched {bad[:4]} which are neither in transfer nor in delete", dict(rep, model=mo[:1500])))
+    if pid == "C04":
+        nq, qdis = quoting_section(rng, thorough, rundir, model_run, res, count)
+        ndis += qdis
     if ndis:
         res["broken"].append(f"{pid}/corr: model and implementation disagree on {ndis} of {len(ops)} runs")
     res.update(evaluations=len(ops), distinct_nontrivial=len({q for q in ops if q.count("=") >= 2}), n_disagreements=ndis,
